@@ -21,7 +21,7 @@ open QM.Heap QM.Heap.State
 /-! ## the invariant holds initially -/
 
 theorem acct_init : Inv State.init := by
-  refine ⟨rfl, rfl, ?_, ?_, ?_, ?_, ?_, ?_, ?_⟩
+  refine ⟨rfl, rfl, ?_, ?_, ?_, ?_, ?_, ?_, ?_, rfl⟩
   · intro i; simp [State.init, State.rc, State.countRefs, State.procsCount, State.constCount,
       State.constCountL, State.floating]
   · intro i hi; simp [State.init, State.isFreed] at hi
@@ -59,8 +59,8 @@ theorem acct_step_allocate {s : State} (h : Inv s) (d : Data) : Inv (allocate s 
 theorem acct_step_processPendingFree {s : State} (h : Inv s) : Inv (processPendingFree s) :=
   inv_processPendingFree h
 
-theorem acct_step_materialize {s : State} (h : Inv s) (index : Nat) : Inv (materialize s index).2 :=
-  inv_materialize h index
+theorem acct_step_materialize {s : State} (h : Inv s) (index : Nat) (hnf : s.isFreed index = false) :
+    Inv (materialize s index).2 := inv_materialize h index hnf
 
 theorem acct_step_cachedConstantBinary {s : State} (h : Inv s) (index : Nat) (bytes : Option Bytes) :
     Inv (cachedConstantBinary s index bytes).2 := (cachedConstantBinary_spec h index bytes).1
@@ -196,6 +196,45 @@ theorem acct_step_finish {s : State} (h : Inv s) (pid : Nat)
 
 theorem acct_step_notifyAwaiters {s : State} (h : Inv s) (pid : Nat) : Inv (notifyAwaiters s pid) :=
   (good_notifyAwaiters h pid).inv
+
+/-- Lead "same-worker awaiter notification with an empty heap list": for a result that mentions a heap
+slot the injection fails before anything is allocated or counted — the state is untouched (the
+result then travels worker → environment → worker); nothing leaks, nothing is counted twice. -/
+theorem notifyResult_empty_heap_noop (s : State) (awaiter awaited : Nat) {v : Val} {j : Nat}
+    (h : 0 < v.count j) : (notifyResult s awaiter awaited v []).1 = s := by
+  unfold notifyResult
+  split
+  · rfl
+  · split
+    · rw [injectHeapData_nil_fails s h]
+    · rfl
+
+/-! ### finished processes (finding F17 and its candidate repair) -/
+
+theorem acct_step_releaseDeadRoots {s : State} (h : Inv s) (pid : Nat) :
+    Inv (releaseDeadRoots s pid) ∧ Stable s (releaseDeadRoots s pid)
+      ∧ (releaseDeadRoots s pid).transit = s.transit := by
+  have g := good_releaseDeadRoots h pid
+  exact ⟨g.inv, g.stable, g.transit⟩
+
+theorem acct_step_notifyMessageGuarded {s : State} (h : Inv s) (id : Nat) (m : Val) (hd : List Bytes) :
+    Inv (notifyMessageGuarded s id m hd).1 := (good_notifyMessageGuarded h id m hd).inv
+
+/-- after `release_dead_roots` a process that cannot be resumed roots nothing but its result -/
+theorem dead_process_roots_only_result {s : State} {pid : Nat} {p : Proc} (hp : s.getProc pid = some p)
+    (hnp : p.persistent = false) :
+    ∃ p', (releaseDeadRoots s pid).getProc pid = some p' ∧ p'.roots = Res.vals p.result := by
+  refine ⟨withoutDeadRoots p, ?_, roots_after_releaseDeadRoots p hnp⟩
+  unfold releaseDeadRoots
+  rw [hp]
+  simp only
+  rw [getProc_of_sameRoots (sameRoots_releaseList _ _)]
+  simp
+
+/-- an undeliverable message leaves the state untouched -/
+theorem undeliverable_message_allocates_nothing {s : State} (id : Nat) (m : Val) (hd : List Bytes)
+    (hnd : ∀ p, s.getProc id = some p → deliverable p = false) : (notifyMessageGuarded s id m hd).1 = s :=
+  notifyMessageGuarded_drop id m hd hnd
 
 /-! ## consequences at slice boundaries (nothing in transit) -/
 
@@ -336,7 +375,8 @@ inductive Reach : State → Prop where
   | resume {s} (id fi : Nat) : Reach s → Reach (resumeProcess s id fi).1
   | compact {s} (pid : Nat) (keep : List Nat) : Reach s → Reach (compactLocals s pid keep).1
   | orphans {s} (pid : Nat) (keep : List Nat) : Reach s → Reach (releaseOrphanLocals s pid keep).2
-  | materialize {s} (index : Nat) : Reach s → Reach (materialize s index).2
+  /-- a builtin flattens a binary of its argument (a live handle: the slot is not freed) -/
+  | materialize {s} (index : Nat) : Reach s → s.isFreed index = false → Reach (materialize s index).2
 
 /-- **the invariant holds, and nothing is in transit, in every reachable state** -/
 theorem reach_inv {s : State} (h : Reach s) : Inv s ∧ s.transit = [] := by
@@ -372,8 +412,8 @@ theorem reach_inv {s : State} (h : Reach s) : Inv s ∧ s.transit = [] := by
   | resume id fi _ ih => have g := good_resumeProcess ih.1 id fi; exact ⟨g.inv, g.transit.trans ih.2⟩
   | compact pid keep _ ih => have g := good_compactLocals ih.1 pid keep; exact ⟨g.inv, g.transit.trans ih.2⟩
   | orphans pid keep _ ih => have g := goodT_releaseOrphanLocals ih.1 pid keep; exact ⟨g.inv, g.transit.trans ih.2⟩
-  | materialize index _ ih =>
-    exact ⟨inv_materialize ih.1 index, by rw [(rootsEq_materialize _ index).transit]; exact ih.2⟩
+  | materialize index _ hnf ih =>
+    exact ⟨inv_materialize ih.1 index hnf, by rw [(rootsEq_materialize _ index).transit]; exact ih.2⟩
 
 /-- **C06 on the model, for every reachable state**: a slot is counted exactly when it is reachable;
 a freed slot is unreachable; the reuse pool is the set of freed slots -/
@@ -381,6 +421,12 @@ theorem reachable_states_exact {s : State} (h : Reach s) (i : Nat) :
     (0 < s.rc i ↔ i ∈ s.reachable) ∧ (s.isFreed i = true → i ∉ s.reachable) ∧ (i ∈ s.free ↔ s.isFreed i = true) := by
   have ⟨hi, ht⟩ := reach_inv h
   exact ⟨positive_iff_reachable hi ht i, fun hf => (no_use_after_free hi i hf).1, free_iff_freed hi i⟩
+
+/-- **no assertion can fire**: the ghost flag `uaf` records every situation in which one of the
+heap's debug assertions would fail — `retain`, `release`, `get_binary_data` (a builtin reading its
+argument) or `materialize` of a freed slot ("use-after-free"), and a `release` underflow. It is
+never set in a reachable state. -/
+theorem no_assertion_fires {s : State} (h : Reach s) : s.uaf = false := (reach_inv h).1.noUaf
 
 /-! ## the theorems depend on the repairs: the code as it was breaks the property
 
@@ -461,6 +507,41 @@ example :
         (readBins (transferAll exParent {} [Val.heapBin 0, Val.heapBin 1]).2))
       = some [[0x01, 0x02], [0x03, 0x04]] := by decide
 example : (transferAll exParent {} [Val.heapBin 0, Val.heapBin 1]).2.heap.size = 2 := by decide
+
+/-- F17 (HEAD). Process 1 finishes; beneath its result (slot 1) the operand stack still holds what a
+tail call inside a tuple field abandoned (slot 0), and a message nobody received sits in its mailbox
+(slot 2). -/
+def exFinishing : State :=
+  { heap := #[.owned [1], .owned [2], .owned [3]], refcounts := #[1, 1, 1], freed := #[false, false, false],
+    procs := [(1, { stack := [Val.heapBin 1, Val.heapBin 0], mailbox := [Val.heapBin 2] })] }
+
+example : ∀ i, i < 3 → exFinishing.rc i = exFinishing.countRefs i + exFinishing.floating i := by decide
+
+/-- at HEAD the finished process keeps both forever: counted, "reachable", never reclaimed -/
+theorem finished_process_keeps_dead_roots :
+    (processPendingFree (finish exFinishing 1).1).reachable = [0, 2, 1]
+      ∧ (processPendingFree (finish exFinishing 1).1).free = [] := by decide
+
+/-- the same holds for a message that arrives after completion (`notify_message` as it is) -/
+example : (processPendingFree (notifyMessage (finish exFinishing 1).1 1 (Val.heapBin 0) [[9]]).1).reachable.length = 4 := by
+  decide
+
+/-- with the repair only the result stays; the rest is in the reuse pool after the next step, and a
+late message allocates nothing -/
+theorem repaired_finish_reclaims_dead_roots :
+    (processPendingFree (releaseDeadRoots (finish exFinishing 1).1 1)).reachable = [1]
+      ∧ (processPendingFree (releaseDeadRoots (finish exFinishing 1).1 1)).free.length = 2 := by decide
+example : (notifyMessageGuarded (releaseDeadRoots (finish exFinishing 1).1 1) 1 (Val.heapBin 0) [[9]]).1.heap.size = 3 := by
+  decide
+
+/-- the assertion flag is not vacuous: using a handle to a freed slot, or releasing more often than
+retained, sets it -/
+def exFreed : State :=
+  { heap := #[.owned []], refcounts := #[0], freed := #[true], free := [0] }
+example : (retain exFreed (Val.heapBin 0)).uaf = true := by decide
+example : (materialize exFreed 0).2.uaf = true := by decide
+example : (release exAwait (Val.tuple 0 [Val.heapBin 0, Val.heapBin 0])).uaf = true := by decide
+example : (release exAwait (Val.heapBin 0)).uaf = false := by decide
 
 end Witnesses
 
